@@ -539,18 +539,20 @@ def compare(ip, st, op, a, b):
             return mk(y < x, 'bool')
         if isinstance(op, ast.GtE):
             return mk(y <= x, 'bool')
-    if isinstance(a, tuple) and isinstance(b, tuple) and len(a) == len(b) and len(a) > 0:
-        # lexicographic tuple ordering
-        strict = isinstance(op, (ast.Lt, ast.Gt))
+    if isinstance(a, tuple) and isinstance(b, tuple):
+        # lexicographic tuple ordering; when one is a proper prefix of the other the shorter one is smaller
         lt = ast.Lt() if isinstance(op, (ast.Lt, ast.LtE)) else ast.Gt()
-        res = None
-        for i in range(len(a) - 1, -1, -1):
-            if i == len(a) - 1:
-                res = compare(ip, st, op, a[i], b[i])
-            else:
-                s_lt = compare(ip, st, lt, a[i], b[i])
-                s_eq = equals(ip, st, a[i], b[i])
-                res = zor(s_lt, zand(s_eq, res))
+        n = min(len(a), len(b))
+        if len(a) == len(b):
+            res = isinstance(op, (ast.LtE, ast.GtE))
+        elif len(a) < len(b):
+            res = isinstance(op, (ast.Lt, ast.LtE))
+        else:
+            res = isinstance(op, (ast.Gt, ast.GtE))
+        for i in range(n - 1, -1, -1):
+            s_lt = compare(ip, st, lt, a[i], b[i])
+            s_eq = equals(ip, st, a[i], b[i])
+            res = zor(s_lt, zand(s_eq, res))
         return res
     raise Unsupported('ordering comparison of %r and %r' % (a, b))
 
